@@ -1,6 +1,9 @@
 (* C04 - mmCIF write -> read round trip.
    Proved here over the tables regenerated from the source (Gen/CifTags.v, T5): the writer's tags are the reader's tags. *)
 From Coq Require Import List Ascii String ZArith Bool Lia.
+From Coq Require Import QArith.
+Local Close Scope Q_scope.
+From PV Require Import Base.Float Proofs.Decimal Proofs.Shortest.
 From PV Require Import Base.Sx Base.Text Spec.Hier Gen.CifTags Model.PdbLex Model.PdbParse Model.CifLex Model.CifParse Model.CifWrite Proofs.C02col.
 Import ListNotations.
 Local Open Scope string_scope.
@@ -53,8 +56,27 @@ Proof.
   rewrite !orb_false_r. rewrite <- !orb_assoc. reflexivity.
 Qed.
 
+(* 5. numbers written in full ({} of f64: unit cell, scale, origx, NCS matrices): the shortest-digits text of a non-zero
+      binary64 value m * 2^e is read back by the decimal parser as a rational that rounds to exactly that value; the digits are
+      only ever accepted by the printer after this very test, and the text is proved to parse to them *)
+Theorem C04_full_precision_number_reads_back : forall nz m e D t, (m <> 0)%Z -> shortest_digits (m, e) = Some (D, t) ->
+  exists q, parse_dec (fmt_shortest nz (m, e)) = Some q /\ rnd64 q = Some (m, e).
+Proof. exact fmt_shortest_reads_back. Qed.
+Theorem C04_printed_digits_round_to_the_value : forall m e D t, shortest_digits (m, e) = Some (D, t) ->
+  rnd64 (dec_q D t) = Some (Z.abs m, e) /\ (0 <= D)%Z.
+Proof. exact shortest_sound. Qed.
+(* 6. the five-decimal numbers of the atom table (print_float prints either an integer followed by ".0" or the shortest digits
+      of the rounded value): a fixed-point text reads back as exactly the decimal it shows *)
+Theorem C04_fixed_text_reads_back : forall neg ds1 ds2, all_digit ds1 -> ds1 <> [] -> all_digit ds2 -> ds2 <> [] ->
+  parse_dec (with_sign neg (ds1 ++ "."%char :: ds2)) =
+  Some (neg_of neg (Qmake (dval ds1 * 10 ^ Z.of_nat (List.length ds2) + dval ds2) (Z.to_pos (10 ^ Z.of_nat (List.length ds2))))).
+Proof. exact parse_dec_fraction. Qed.
+
 Print Assumptions C04_writer_tags_are_reader_tags.
 Print Assumptions C04_reader_columns_are_written.
 Print Assumptions C04_reader_items_are_written.
 Print Assumptions C04_model_required_columns.
 Print Assumptions C04_model_items_are_the_source_items.
+Print Assumptions C04_full_precision_number_reads_back.
+Print Assumptions C04_printed_digits_round_to_the_value.
+Print Assumptions C04_fixed_text_reads_back.
